@@ -408,7 +408,33 @@ class C21(HexCaseProp):
                 c['canon'] = canon
             out.append(c)
         return out
+    def harness_violations(self, case, recs):
+        """Differential failures reported by the harness; two patterns observed on the unchanged tree get their own, narrowly
+        defined classes (see the final report / known_findings.json), everything else keeps the generic class."""
+        out = []
+        data = bytes.fromhex(case['hex'])
+        for (kind, f, seq, t) in recs:
+            if kind != 'VIOL':
+                continue
+            cls = f[0]
+            cuts = []
+            inc = []
+            for i, x in enumerate(f):
+                if x.startswith('cuts=') and x != 'cuts=-':
+                    cuts = [int(c) for c in x[5:].split(',') if c.isdigit()]
+                if x.startswith('inc='):
+                    inc = [x[4:]] + f[i + 1:i + 2]
+            limit = int(self._plan_limit)
+            g = len(re.match(rb'(?:\n|\r\n)*', data).group(0)) if self._plan_relaxed else 0
+            if cls.startswith('seg-dependent:') and self._plan_relaxed and any(re.fullmatch(rb'(?:\n|\r\n)*\r', data[:c]) and data[c:c + 1] == b'\n' for c in cuts):
+                cls = 'seg-dependent:lone-CR-of-leading-CRLF-then-LF'
+            elif cls.startswith('seg-dependent:') and inc[:2] == ['err', '414'] and len(data) - g >= limit and b'\n' not in data[g:g + limit]:
+                cls = 'seg-dependent:request-line-longer-than-limit'
+            out.append(Violation('%s:%s' % (self.id, cls), 'case %s input=%s %s' % (case['id'], self.describe_case(case), ' '.join(f[1:])[:700])))
+        return out
     def judge_case(self, case, recs, plan, meta):
+        self._plan_limit = plan['limit']
+        self._plan_relaxed = plan['relaxed'] == 'on'
         V = self.harness_violations(case, recs)
         res = [r for r in recs if r[0] == 'RES'][0][1]
         kind, status, method, uri, ver, mime, used = res[0], int(res[1]), res[2], res[3], res[4], res[5], int(res[6])
@@ -565,7 +591,7 @@ class Bad(Exception):
 class More(Exception):
     pass
 
-def ref_dechunk(data, relaxed):
+def ref_dechunk(data, relaxed, trailing_bws=False):
     """Reference chunked decoder (RFC 9112 section 7.1 with BWS around ';' and '=' in chunk extensions).
     -> ('ok', body, consumed, strict) | ('more', body_so_far) | ('bad', body_so_far) | ('unsure', why)
     strict=False marks input that is outside the RFC grammar although Squid documents tolerating it (SP/HTAB right after chunk-size)."""
@@ -658,8 +684,9 @@ def ref_dechunk(data, relaxed):
                     pos = e
             if after_size_ws and nexts == 0:
                 strict = False
-            elif after_size_ws:
-                pass   # BWS before ';' is in the grammar
+            if trailing_bws and nexts:
+                pos = bws(pos)      # not in the grammar; only used to recognise one observed pattern (see C24.harness_violations)
+                need(pos)
             pos = crlf(pos)
             if size == 0:
                 # trailer-section CRLF
@@ -830,7 +857,21 @@ class C24(HexCaseProp):
         return out
     def describe_case(self, c):
         return '%s %s' % (c.get('label', ''), brief(bytes.fromhex(c['hex']), 160))
+    def harness_violations(self, case, recs):
+        """Differential failures; one pattern observed on the unchanged tree (SP/HTAB between the last chunk-ext and CRLF is rejected
+        when it arrives together with the extension, accepted when a read ends after the extension) gets its own class."""
+        out = []
+        data = bytes.fromhex(case['hex'])
+        for (kind, f, seq, t) in recs:
+            if kind != 'VIOL':
+                continue
+            cls = f[0]
+            if cls == 'seg-dependent:kind:err-vs-ok' and ref_dechunk(data, self._relaxed)[0] == 'bad' and ref_dechunk(data, self._relaxed, True)[0] == 'ok':
+                cls = 'seg-dependent:bws-between-chunk-ext-and-CRLF'
+            out.append(Violation('%s:%s' % (self.id, cls), 'case %s input=%s %s' % (case['id'], self.describe_case(case), ' '.join(f[1:])[:700])))
+        return out
     def judge_case(self, case, recs, plan, meta):
+        self._relaxed = plan['relaxed'] == 'on'
         V = self.harness_violations(case, recs)
         res = [r for r in recs if r[0] == 'RES'][0][1]
         kind, outlen, outhash, used = res[0], int(res[1]), int(res[2], 16), int(res[3])
